@@ -171,5 +171,6 @@ def run(ctx):
         rep.check(r3, oku, 'le32:uncompressed', 'uncompressed length = %s (required len() of the buffer fed to the encoder), emitted as 4 little-endian bytes' % (short(init_u)[:110] if init_u is not None else None), seq[2][3]['loc'])
         rep.check(r3, True, 'total-before-uncompressed', 'the total length precedes the uncompressed length')
     dispatch_sound(ctx, 'C18', 'a banner reaches the SSH / Gh0st responders')
+    no_abort_in(ctx, 'C18', r'proto::(ssh|ghost)::', 'answering SSH / Gh0st')
 
 
